@@ -308,6 +308,36 @@ def end_of_episode(w, hist):
                     tc["Broker fees"].iloc[-1], tc["Profit on idle Cash"].iloc[-1], fee, intr), ""))
         else:
             fails.append(("frames", "transaction_costs failed: %r" % (tc,), ""))
+        # per-row costs (cumulative=False), the entries addressed by position and by stamp, and the burn-in option: the
+        # rows it keeps are rows of the full frame (same stamps, same values) and it drops exactly the leading entries
+        # that traded nothing
+        o8, tcr = impl.classify(lambda: tr.transaction_costs(cumulative=False))
+        if o8 == "ok" and len(tcr) == len(steps):
+            for i, r in enumerate(steps):
+                if not close(float(tcr["Broker fees"].iloc[i]), frac(r["comm"])) or \
+                        not close(float(tcr["Profit on idle Cash"].iloc[i]), frac(r["interest"])):
+                    fails.append(("frames", "transaction_costs(cumulative=False) row %d = fees %r interest %r, spec %s / %s" % (
+                        i, tcr["Broker fees"].iloc[i], tcr["Profit on idle Cash"].iloc[i], frac(r["comm"]), frac(r["interest"])), ""))
+                    break
+        elif o8 != "ok" or len(tcr) != len(steps):
+            fails.append(("frames", "transaction_costs(cumulative=False): %r rows for %d executed decisions" % (
+                len(tcr) if o8 == "ok" else tcr, len(steps)), ""))
+        for i in range(len(steps)):
+            e_i = tr[i]
+            if tr[e_i.time] is not e_i or (i and not tr[i - 1].time < e_i.time):
+                fails.append(("frames", "TrackRecord[%d] and TrackRecord[its stamp] are different entries, or stamps not increasing" % i, ""))
+                break
+        lead = 0
+        for i in range(len(steps)):
+            if len(tr[i].trades) == 0:
+                lead += 1
+            else:
+                break
+        o9, dfb = impl.classify(lambda: tr.net_liquidation_value(before_rebalancing=True, burn=True))
+        if o9 != "ok" or len(dfb) != len(steps) - lead or \
+                any(dfb.index[k] != df.index[lead + k] or not close(float(dfb.iloc[k, 0]), frac(steps[lead + k]["pre"])) for k in range(len(dfb))):
+            fails.append(("frames", "net_liquidation_value(burn=True) = %r rows after %d leading entries without trades of %d; "
+                                    "its rows must be the remaining rows of the full frame" % (len(dfb) if o9 == "ok" else dfb, lead, len(steps)), ""))
     # weight frames: one row per executed decision; the target row is the allocation that was executed (chain keys resolved to
     # the contract traded), the actual rows are the weights of the account just before / after trading
     if not fails and steps and len(tr) == len(steps):
